@@ -7,7 +7,7 @@
    ExampleEvaluator; M-step = LFIProblem._update (expected counts, the 1e-15 floor) followed,
    when norm = true, by LFIProblem._normalize_weights. *)
 From Coq Require Import QArith List Bool Reals.
-From PL.C24 Require Import ModelLFIUpdate ProofsBasic ProofsRange ProofsMLE ProofsEM.
+From PL.C24 Require Import ModelLFIUpdate ProofsBasic ProofsRange ProofsMLE ProofsEM ProofsEMBlocks ProofsEMExample.
 Import ListNotations.
 Open Scope Q_scope.
 
@@ -105,7 +105,9 @@ Print Assumptions C24_mstep_categorical.
    FULL STATEMENT NOT PROVED (hence _partial): LL (step true p exs th) >= LL th for the model's
    [step] on every program with SEVERAL tunable blocks, where LL th = sum_e m_e * ln (pevidence th p e),
    with the 1e-6 clamp and the 1e-15 floor inactive.  Missing: the regrouping of the Q-function over
-   several blocks and the instantiation of (a, kap) by the world table of ModelLFIUpdate. *)
+   several blocks and the instantiation of (a, kap) by the world table of ModelLFIUpdate.
+   UPDATE: the regrouping over several blocks is proved below (C24_Q_decomposes ... C24_em_monotone);
+   the instantiation by the world table is still open, see the comment above C24_em_monotone. *)
 Theorem C24_em_monotone_partial : forall (E Z : Type) (exs : list E) (m : E -> R) (zs : E -> list Z)
   (a : E -> Z -> R) (kap : E -> Z -> option nat) (ks : list nat) (avail : R),
   NoDup ks ->
@@ -121,6 +123,134 @@ Theorem C24_em_monotone_partial : forall (E Z : Type) (exs : list E) (m : E -> R
    LL exs m zs (fblock a kap) (em_update exs m zs a kap ks avail th))%R.
 Proof. exact em_monotone_one_block. Qed.
 Print Assumptions C24_em_monotone_partial.
+
+(* ------------------------------------------------------------------ EM with SEVERAL tunable blocks (ProofsEMBlocks.v)
+   Abstract model: blocks b in bs with outcomes ks b and available mass avail b (a tunable fact = block
+   {true,false}, avail 1; an AD = its tunable heads plus its "no head" outcome, avail = 1 - constant heads);
+   in world z of example e block b selects outcome k (kap b e z = Some k: factor th b k) or is switched off
+   (kap b e z = None: body false, or block irrelevant for e: factor 1); the rest of the world's weight and its
+   consistency with the example is a e z >= 0:
+       fmulti th e z = a e z * prod_{b in bs} (match kap b e z with Some k => th b k | None => 1 end).
+   bcounts th b k = expected number of selections of outcome k of block b (posterior under th);
+   em_update_blocks th b k = avail b * bcounts th b k / sum_{k' in ks b} bcounts th b k'  (LFI's normalised
+   expected-count update; a block with no expected selection at all keeps its value). *)
+
+(* (4) the Q-function difference is a sum over the blocks, each regrouped by outcome; th' is ANY parameter
+   vector that stays positive where the data needs it *)
+Theorem C24_Q_decomposes : forall (E Z : Type) (exs : list E) (m : E -> R) (zs : E -> list Z)
+  (a : E -> Z -> R) (bs : list nat) (ks : nat -> list nat) (kap : nat -> E -> Z -> option nat),
+  (forall b, In b bs -> NoDup (ks b)) ->
+  (forall b e z k, In b bs -> In e exs -> In z (zs e) -> kap b e z = Some k -> In k (ks b)) ->
+  (forall e z, (0 <= a e z)%R) ->
+  forall th : nat -> nat -> R,
+  (forall b k, In b bs -> (0 <= th b k)%R) ->
+  (forall e, In e exs -> (0 < lik zs (fmulti a bs kap) th e)%R) ->
+  forall th' : nat -> nat -> R,
+  keeps_support exs zs a bs kap th th' ->
+  (Qf exs m zs (fmulti a bs kap) th th' - Qf exs m zs (fmulti a bs kap) th th =
+   sumR (fun b => sumR (fun k => bcounts exs m zs a bs kap th b k * (ln (th' b k) - ln (th b k))) (ks b)) bs)%R.
+Proof. exact Q_decompose. Qed.
+Print Assumptions C24_Q_decomposes.
+
+(* (5) the update maximises every block's summand among all admissible parameter vectors ... *)
+Theorem C24_mstep_blockwise : forall (E Z : Type) (exs : list E) (m : E -> R) (zs : E -> list Z)
+  (a : E -> Z -> R) (bs : list nat) (ks : nat -> list nat) (avail : nat -> R) (kap : nat -> E -> Z -> option nat),
+  (forall e, In e exs -> (0 < m e)%R) -> (forall e z, (0 <= a e z)%R) -> (forall b, In b bs -> (0 < avail b)%R) ->
+  forall th : nat -> nat -> R,
+  (forall b k, In b bs -> (0 <= th b k)%R) ->
+  (forall e, In e exs -> (0 < lik zs (fmulti a bs kap) th e)%R) ->
+  forall (th'' : nat -> nat -> R) (b : nat), In b bs ->
+  admissible_theta bs ks avail th'' -> keeps_support exs zs a bs kap th th'' ->
+  (bterm exs m zs a bs ks kap th th'' b <=
+   bterm exs m zs a bs ks kap th (em_update_blocks exs m zs a bs ks avail kap th) b)%R.
+Proof. exact block_opt. Qed.
+Print Assumptions C24_mstep_blockwise.
+
+(* ... hence the whole expected complete-data log-likelihood Q(.|th) *)
+Theorem C24_mstep_maximises_Q : forall (E Z : Type) (exs : list E) (m : E -> R) (zs : E -> list Z)
+  (a : E -> Z -> R) (bs : list nat) (ks : nat -> list nat) (avail : nat -> R) (kap : nat -> E -> Z -> option nat),
+  (forall b, In b bs -> NoDup (ks b)) ->
+  (forall b e z k, In b bs -> In e exs -> In z (zs e) -> kap b e z = Some k -> In k (ks b)) ->
+  (forall e, In e exs -> (0 < m e)%R) -> (forall e z, (0 <= a e z)%R) -> (forall b, In b bs -> (0 < avail b)%R) ->
+  forall th : nat -> nat -> R,
+  (forall b k, In b bs -> (0 <= th b k)%R) ->
+  (forall e, In e exs -> (0 < lik zs (fmulti a bs kap) th e)%R) ->
+  forall th'' : nat -> nat -> R,
+  admissible_theta bs ks avail th'' -> keeps_support exs zs a bs kap th th'' ->
+  (Qf exs m zs (fmulti a bs kap) th th'' <=
+   Qf exs m zs (fmulti a bs kap) th (em_update_blocks exs m zs a bs ks avail kap th))%R.
+Proof. exact mstep_maximises_Q. Qed.
+Print Assumptions C24_mstep_maximises_Q.
+
+(* (6) ONE FULL EM STEP of the abstract model with k blocks does not decrease the log-likelihood.
+   Side conditions: multiplicities > 0, every example has positive likelihood under th (LFI drops the others),
+   th is non-negative and every block is within its available mass.  No clamp / floor in this update: it is
+   the exact expected-count update (= LFI's when the 1e-6 clamp and the 1e-15 floor are inactive).
+
+   WHAT THIS IS NOT: a theorem about [step true p exs th] of ModelLFIUpdate.  The statement
+       C24_em_monotone_model (NOT PROVED):  wf_prog p, wf_params p, wf_theta p th, forallb ad_ok p, multiplicities >= 1,
+         0 < pevidence th p e for every example, clamp and floor inactive,
+         every AD with tunable heads has  psum th (tun_of c) == 1 - fixed_sum c     (*)
+         ->  sum_e m_e * ln (pevidence (step true p exs th) p e)  >=  sum_e m_e * ln (pevidence th p e)
+   needs three links that are not formalised:
+     L1 latent space: fmulti is NOT the weight of a row of [wtable] (there every clause always selects an outcome);
+        a latent world must be a row with the selections of the clauses whose body is false, or that
+        [queried] does not reach from the example, summed out (their outcome weights sum to 1 and the evidence
+        does not depend on them); then  sum_z fmulti th e z = pevidence th p e;
+     L2 E-step: wsum(body_pred i)/pe and wsum(par_pred i)/pe of [estep1] are the posterior masses of
+        {kap = Some k_i} and {kap <> None} of that latent space (clamp inactive);
+     L3 M-step: fact_body/fact_par followed by [normalize] is em_update_blocks: for a tunable fact
+        c_true/(c_true + c_false); for an AD the factor "number of heads" in par_marg cancels in normalize1, and
+        LFI normalises over the tunable heads only, which is the EM update only if the "no head" outcome has
+        expected count 0 (C24_update_without_none) -- this is what (*) is for.
+   Without (*) the model-level statement is FALSE (Findings.v: C24_ad_none_outcome_likelihood_collapse_refuted:
+   t(0.3)::b; t(0.3)::c. with the interpretations {b} and {not b, not c}: one step gives b = 1, c = 0 and the second
+   interpretation drops from probability 0.4 to 0; the real LFIProblem prints "Ignoring example 2/2" and reports
+   a larger log-likelihood over the remaining example). *)
+Theorem C24_em_monotone : forall (E Z : Type) (exs : list E) (m : E -> R) (zs : E -> list Z)
+  (a : E -> Z -> R) (bs : list nat) (ks : nat -> list nat) (avail : nat -> R) (kap : nat -> E -> Z -> option nat),
+  (forall b, In b bs -> NoDup (ks b)) ->
+  (forall b e z k, In b bs -> In e exs -> In z (zs e) -> kap b e z = Some k -> In k (ks b)) ->
+  (forall e, In e exs -> (0 < m e)%R) -> (forall e z, (0 <= a e z)%R) -> (forall b, In b bs -> (0 < avail b)%R) ->
+  forall th : nat -> nat -> R,
+  (forall b k, In b bs -> (0 <= th b k)%R) ->
+  (forall b, In b bs -> (sumR (th b) (ks b) <= avail b)%R) ->
+  (forall e, In e exs -> (0 < lik zs (fmulti a bs kap) th e)%R) ->
+  (LL exs m zs (fmulti a bs kap) th <=
+   LL exs m zs (fmulti a bs kap) (em_update_blocks exs m zs a bs ks avail kap th))%R.
+Proof. exact em_monotone_blocks. Qed.
+Print Assumptions C24_em_monotone.
+
+(* (7) the step can be iterated: the new parameters are again admissible and every example keeps a positive
+   likelihood, so C24_em_monotone applies along the whole run *)
+Theorem C24_em_step_valid : forall (E Z : Type) (exs : list E) (m : E -> R) (zs : E -> list Z)
+  (a : E -> Z -> R) (bs : list nat) (ks : nat -> list nat) (avail : nat -> R) (kap : nat -> E -> Z -> option nat),
+  (forall b e z k, In b bs -> In e exs -> In z (zs e) -> kap b e z = Some k -> In k (ks b)) ->
+  (forall e, In e exs -> (0 < m e)%R) -> (forall e z, (0 <= a e z)%R) -> (forall b, In b bs -> (0 < avail b)%R) ->
+  forall th : nat -> nat -> R,
+  (forall b k, In b bs -> (0 <= th b k)%R) ->
+  (forall b, In b bs -> (sumR (th b) (ks b) <= avail b)%R) ->
+  (forall e, In e exs -> (0 < lik zs (fmulti a bs kap) th e)%R) ->
+  admissible_theta bs ks avail (em_update_blocks exs m zs a bs ks avail kap th) /\
+  (forall e, In e exs -> (0 < lik zs (fmulti a bs kap) (em_update_blocks exs m zs a bs ks avail kap th) e)%R).
+Proof. exact em_step_valid. Qed.
+Print Assumptions C24_em_step_valid.
+
+(* (8) LFI normalises an AD over its tunable heads only.  With the "no head" outcome k0 carried as an outcome
+   of the block, that is the EM update exactly when k0 has expected count 0 (in particular when th b k0 = 0,
+   i.e. the heads already sum to the available mass): then k0 gets 0 and the others avail * c_k / sum_{k<>k0} c *)
+Theorem C24_update_without_none : forall (E Z : Type) (exs : list E) (m : E -> R) (zs : E -> list Z)
+  (a : E -> Z -> R) (bs : list nat) (ks : nat -> list nat) (avail : nat -> R) (kap : nat -> E -> Z -> option nat)
+  (th : nat -> nat -> R) (b k0 : nat),
+  bcounts exs m zs a bs kap th b k0 = 0%R ->
+  btotal exs m zs a bs ks kap th b = sumR (bcounts exs m zs a bs kap th b) (remove Nat.eq_dec k0 (ks b)) /\
+  (btotal exs m zs a bs ks kap th b <> 0%R -> em_update_blocks exs m zs a bs ks avail kap th b k0 = 0%R) /\
+  (forall k, btotal exs m zs a bs ks kap th b <> 0%R ->
+     em_update_blocks exs m zs a bs ks avail kap th b k =
+     (avail b * bcounts exs m zs a bs kap th b k /
+      sumR (bcounts exs m zs a bs kap th b) (remove Nat.eq_dec k0 (ks b)))%R).
+Proof. exact update_without_none. Qed.
+Print Assumptions C24_update_without_none.
 
 (* ------------------------------------------------------------------ non-vacuity *)
 (* t(th)::f.   examples: f three times, \+f once *)
@@ -154,3 +284,23 @@ Example C24_example_step :
   wf_theta ex_prog2 [3 # 10; 2 # 10; 5 # 10; 4 # 10] = true /\ forallb ad_ok ex_prog2 = true /\
   step true ex_prog2 ex_data2 [3 # 10; 2 # 10; 5 # 10; 4 # 10] = [141 # 176; 247 # 511; 264 # 511; 1 # 2].
 Proof. vm_compute. repeat split; reflexivity. Qed.
+
+(* the hypotheses of C24_em_monotone are satisfiable by a two-block instance with a latent variable:
+   t(1/2)::f.  t(1/4)::b; t(1/4)::c.  (block 1 carries its "no head" outcome, weight 1/2);
+   example 0 observes f and b, example 1 observes only c *)
+Example C24_example_em_hyps :
+  (forall b, In b xe_bs -> NoDup (xe_ks b)) /\
+  (forall b e z k, In b xe_bs -> In e xe_exs -> In z (xe_zs e) -> xe_kap b e z = Some k -> In k (xe_ks b)) /\
+  (forall e, In e xe_exs -> (0 < (fun _ : nat => 1) e)%R) /\
+  (forall e z, (0 <= xe_a e z)%R) /\
+  (forall b, In b xe_bs -> (0 < (fun _ : nat => 1) b)%R) /\
+  (forall b k, In b xe_bs -> (0 <= xe_th b k)%R) /\
+  (forall b, In b xe_bs -> (sumR (xe_th b) (xe_ks b) <= (fun _ : nat => 1) b)%R) /\
+  (forall e, In e xe_exs -> (0 < lik xe_zs (fmulti xe_a xe_bs xe_kap) xe_th e)%R).
+Proof. exact example_em_hyps. Qed.
+
+Example C24_example_em :
+  (LL xe_exs (fun _ => 1) xe_zs (fmulti xe_a xe_bs xe_kap) xe_th <=
+   LL xe_exs (fun _ => 1) xe_zs (fmulti xe_a xe_bs xe_kap)
+      (em_update_blocks xe_exs (fun _ => 1) xe_zs xe_a xe_bs xe_ks (fun _ => 1) xe_kap xe_th))%R.
+Proof. exact example_em_monotone. Qed.
